@@ -114,6 +114,66 @@ func sinTan(x, u []float64) (sn, tn float64) {
 	return s / nrm, s / c
 }
 
+// hitsIterations runs the documented HITS iteration and returns the number of
+// iterations until both update norms are below tol, or -1 when that takes more
+// than maxIter iterations.
+func hitsIterations(m *model, tol float64, maxIter int) int {
+	n := m.n
+	in := make([][]int, n)
+	out := make([][]int, n)
+	for _, e := range m.edges {
+		out[e.U] = append(out[e.U], e.V)
+		in[e.V] = append(in[e.V], e.U)
+	}
+	auth := make([]float64, n)
+	hub := make([]float64, n)
+	for i := range hub {
+		auth[i], hub[i] = 1, 1
+	}
+	na := make([]float64, n)
+	nh := make([]float64, n)
+	// a generous margin: the routine sums in another order, so it may cross
+	// the threshold somewhat later than this simulation
+	for it := 1; it <= maxIter; it++ {
+		var nrm float64
+		for v := 0; v < n; v++ {
+			var a float64
+			for _, u := range in[v] {
+				a += hub[u]
+			}
+			na[v] = a
+			nrm += a * a
+		}
+		nrm = math.Sqrt(nrm)
+		var da float64
+		for v := range na {
+			na[v] /= nrm
+			da += (na[v] - auth[v]) * (na[v] - auth[v])
+		}
+		auth, na = na, auth
+		nrm = 0
+		for u := 0; u < n; u++ {
+			var h float64
+			for _, v := range out[u] {
+				h += auth[v]
+			}
+			nh[u] = h
+			nrm += h * h
+		}
+		nrm = math.Sqrt(nrm)
+		var dh float64
+		for u := range nh {
+			nh[u] /= nrm
+			dh += (nh[u] - hub[u]) * (nh[u] - hub[u])
+		}
+		hub, nh = nh, hub
+		if math.Sqrt(da) < tol/2 && math.Sqrt(dh) < tol/2 {
+			return it
+		}
+	}
+	return -1
+}
+
 func checkHITS(c hitsCase) *vk.Failure {
 	c.G.Directed = true
 	m := newModel(c.G)
@@ -124,6 +184,18 @@ func checkHITS(c hitsCase) *vk.Failure {
 	n := m.n
 	vk.Sample("hits", c)
 	g := m.buildUnweighted().(graph.Directed)
+	// HITS converges at the rate (lambda2/lambda1) of A A^T, which can be
+	// arbitrarily close to one (nearly bipartite structure); the documented
+	// stopping rule is then satisfied only after billions of iterations. The
+	// harness runs the documented iteration itself with an iteration cap and
+	// does not call the routine on cases that are merely slow, so that the hang
+	// watchdog only sees genuine non-termination.
+	if len(m.edges) > 0 {
+		if it := hitsIterations(m, tol, 30000000/(len(m.edges)+n)); it < 0 {
+			vk.Class("hits:skipped-slow-convergence")
+			return nil
+		}
+	}
 	var res map[int64]network.HubAuthority
 	// an endless loop is reported by the hang watchdog of the kit
 	if f := vk.MustReturn("hits-panics", func() { res = network.HITS(g, tol) }); f != nil {
